@@ -240,14 +240,14 @@ type chanSpec struct {
 }
 
 type mstep struct {
-	kind   int // 0 send, 1 sleep, 2 pump a little, 3 settle
-	side   int
-	ch     int
-	size   int
-	try    bool
-	bad    int // 0 ok, 1 empty message, 2 unknown channel
-	dur    time.Duration
-	pumpN  int
+	kind  int // 0 send, 1 sleep, 2 pump a little, 3 settle
+	side  int
+	ch    int
+	size  int
+	try   bool
+	bad   int // 0 ok, 1 empty message, 2 unknown channel
+	dur   time.Duration
+	pumpN int
 }
 
 type mplan struct {
@@ -325,8 +325,8 @@ func (r *runState) planMConn() *mplan {
 	used := map[byte]bool{}
 	for len(pl.chans) < nch {
 		id := byte(cfg.Int(256))
-		if used[id] {
-			continue
+		for used[id] { // never a rejection loop on the tape: a replayed tape may be all zeros
+			id++
 		}
 		used[id] = true
 		cs := chanSpec{id: id}
